@@ -54,10 +54,15 @@ def iter_source(E, it, st):
             g, x = vs
             ct, ed = E.edges_of(s1, g)
             xv = E.coerce(x, ct.elem).v
-            y = E.fresh("y", ct.elem.sort)
-            arr = E.fresh("nbrs", z3.ArraySort(ct.elem.sort, B))
-            s1.pc.append(z3.ForAll([y], arr[y] == (ed[y][xv] if it.func.attr == "predecessors" else ed[xv][y])))
-            yield s1, "set", (ct.elem, arr, None)
+            e_, nodes_ = E.set_of(s1, g)
+            def mk(s, ct=ct, ed=ed, xv=xv):
+                y = E.fresh("y", ct.elem.sort)
+                arr = E.fresh("nbrs", z3.ArraySort(ct.elem.sort, B))
+                s.pc.append(z3.ForAll([y], arr[y] == (ed[y][xv] if it.func.attr == "predecessors" else ed[xv][y])))
+                return SV(arr, SetVT(ct.elem))
+            for s2, r in E.fork_exc(s1, nodes_[xv], mk, "NetworkXError", it):
+                if isinstance(r, Exc): yield s2, r, None
+                else: yield s2, "set", (ct.elem, r.v, None)
         return
     if isinstance(it, ast.Attribute) and it.attr == "nodes":
         for s1, g in E.ev(it.value, st):
@@ -187,16 +192,23 @@ def run_loop(E, n, st, k, sp, names, kind, pl):
 
 
 # ---------------------------------------------------------------------------------------------- comprehensions
-def pure_eval(E, node, st, binds):
-    """Evaluate a side-effect-free expression with extra bound names; must stay on a single path and leave the
-    heap untouched.  Returns (SV, facts) where facts are the hypotheses added while evaluating."""
+def pure_eval(E, node, st, binds, guards=()):
+    """Evaluate a side-effect-free expression with extra bound names; must stay on a single normal path and leave
+    the heap untouched; every exceptional outcome becomes the obligation that it is infeasible.
+    Returns (SV, facts) where facts are the hypotheses added while evaluating."""
     s = st.copy()
     s.loc = dict(s.loc); s.loc.update(binds)
+    s.pc.extend(guards)
     n0 = len(s.pc); heap0 = dict(s.heap)
     outs = list(E.ev(node, s))
-    if len(outs) != 1 or isinstance(outs[0][1], Exc):
-        raise Unsupported("comprehension element/condition forks or may raise (line %s)" % node.lineno)
-    s1, v = outs[0]
+    normal = [(a, b) for a, b in outs if not isinstance(b, Exc)]
+    for a, b in outs:
+        if isinstance(b, Exc):
+            E.oblige(a, "comprehension-safe", "L%d:%s" % (node.lineno - E.base_line, b.tag), z3.BoolVal(False), node.lineno,
+                     "element/condition of the comprehension cannot raise %s" % b.tag)
+    if len(normal) != 1:
+        raise Unsupported("comprehension element/condition forks (line %s)" % node.lineno)
+    s1, v = normal[0]
     for r in set(s1.heap) | set(heap0):
         if r == "alloc": continue
         if r not in heap0 or r not in s1.heap or not heap0[r].eq(s1.heap[r]):
@@ -233,8 +245,8 @@ def list_comp(E, n, st):
         binds = bind_target(E, g.target, SV(x, ety), s1)
         conds, facts = [], []
         for c in g.ifs:
-            v, f = pure_eval(E, c, s1, binds); conds.append(E.truth(v, s1)); facts += f
-        ev, f = pure_eval(E, n.elt, s1, binds); facts += f
+            v, f = pure_eval(E, c, s1, binds, [M[x]] + conds); conds.append(E.truth(v, s1)); facts += f
+        ev, f = pure_eval(E, n.elt, s1, binds, [M[x]] + conds); facts += f
         if not (ev.ty.sort == ety.sort and ev.v.eq(x)): raise Unsupported("mapping comprehension over a set")
         filt = E.fresh("filt", z3.ArraySort(ety.sort, B))
         s1.pc.append(z3.ForAll([x], z3.And(*facts, filt[x] == z3.And(M[x], *conds))))
